@@ -44,6 +44,7 @@ A1, A2, A3 = 'http://x/y/Act1', 'http://x/y/Act2', 'http://x/y/Act3'
 ACTIONS = (A1, A2, 'Act1', A3)
 FILTERS = ((A1, A2), ())
 NOTIFY = 'http://10.0.0.1:8000/notify'
+FILTER_SEPS = (' ', '\n    ', '\t', '  ')
 
 
 def _limit():
@@ -55,7 +56,7 @@ def _limit():
 def _mk_sub(cls, pool, filt, mx, expires=None):
     """A subscription built by the REAL constructor from a Subscribe object (no XML involved)."""
     req = evt.Subscribe()
-    req.set_filter(' '.join(filt))
+    req.set_filter('\n    '.join(filt) + '\n')      # one action per line, as a pretty-printing subscriber writes the list
     req.Delivery.NotifyTo.Address = NOTIFY
     if expires is not None:
         req.Expires = expires
@@ -342,7 +343,10 @@ def step(w, orc, op, t, p, q, zombies):
         notify = f'http://10.0.{slot}.1:8000/notify{w.n}'
         end = f'http://10.0.{slot}.9:8009/end{w.n}' if has_end else None
         req = evt.Subscribe()
-        req.set_filter(' '.join(filt))
+        # wse:Filter is a whitespace separated list: any run of blanks, tabs and line breaks separates (and may surround) the
+        # actions - a pretty-printing subscriber writes one action per line
+        sep = FILTER_SEPS[w.n % len(FILTER_SEPS)]
+        req.set_filter(('\n  ' if w.n % 2 else '') + sep.join(filt) + ('\n' if w.n % 2 else ''))
         req.Delivery.NotifyTo.Address = notify
         ident = etree.Element('{urn:verif}NotifyIdent')       # a reference parameter of the NotifyTo endpoint ONLY
         ident.text = f'n{w.n}'
